@@ -379,6 +379,7 @@ PROPS = {
             {"test": "TestC19EdDSA", "quick": 60, "thorough": 1500, "shards_thorough": 8},
             {"test": "TestC19ECDSA", "quick": 30, "thorough": 400, "shards_thorough": 4, "timeout_thorough": 5400},
             {"test": "TestC19Bind", "quick": 12, "thorough": 300, "shards_thorough": 4},
+            {"test": "TestC19BindECDSA", "quick": 10, "thorough": 400, "shards_thorough": 4},
         ],
         "rule": "Live EdDSA key generation and signing for (n,t) in {(2,1),(3,2),(3,1),(4,3),(4,2),(5,3)}; ECDSA signing from committed key fixtures "
                 "((2,1),(3,2); captured key-generation frames included) in quick and live key generation in thorough; a direct dispatcher records "
